@@ -699,6 +699,12 @@ ARTEFACTS = [("full_grid", "save_full_grid", "load_full_grid", "get_full_grid_as
              ("adjacency", "save_adjacency_array", "load_adjacency_array", "get_full_adjacency", "adj.npz")]
 
 
+def _dense(x):
+    if hasattr(x, "toarray"):
+        return np.asarray(x.toarray().view(np.ndarray), dtype=object)
+    return np.asarray(x.view(np.ndarray) if isinstance(x, np.ndarray) else x, dtype=object)
+
+
 def _snap(x):
     """(kind, structure, values) of an array or sparse matrix, for entry-wise comparison"""
     if hasattr(x, "tocoo") and hasattr(x, "format"):
@@ -755,20 +761,25 @@ def run_persist(shape):
                 @staticmethod
                 def create(alg_name=None, N=None, **k):
                     return o
-            with bound(F, SphereGrid4DFactory=F4, SphereGrid3DFactory=F3):
+            from harness.fgstub import _radii_parser
+            with bound(F, SphereGrid4DFactory=F4, SphereGrid3DFactory=F3, TranslationParser=_radii_parser(TR, sarr([SR(x) for x in r]))):
                 w = IO.GridWriter(str(n_b), str(n_o), _t_text(n_t), factor=SR(f))      # the REAL GridWriter.__init__ -> FullGrid.__init__
-            w.fg.position_grid.t_grid.trans_grid = sarr([SR(x) for x in r])
             before = {a[0]: _snap(getattr(w.fg, a[3])()) for a in ARTEFACTS}
+            dense_before = {a[0]: _dense(getattr(w.fg, a[3])()) for a in ARTEFACTS}
             for a in ARTEFACTS:
                 getattr(w, a[1])(a[4])
+            saved = {a[0]: _snap(store.d[a[4]]) if a[4] in store.d else None for a in ARTEFACTS}
+            dense_saved = {a[0]: _dense(store.d[a[4]]) if a[4] in store.d else None for a in ARTEFACTS}
             rd = IO.GridReader()
             loaded = {a[0]: _snap(getattr(rd, a[2])(a[4])) for a in reversed(ARTEFACTS)}
             # history: write everything a second time (other order), read again; ask the grid itself afterwards
             for a in reversed(ARTEFACTS):
                 getattr(w, a[1])("second_" + a[4])
+            saved2 = {a[0]: _snap(store.d["second_" + a[4]]) if ("second_" + a[4]) in store.d else None for a in ARTEFACTS}
+            dense_saved2 = {a[0]: _dense(store.d["second_" + a[4]]) if ("second_" + a[4]) in store.d else None for a in ARTEFACTS}
             loaded2 = {a[0]: _snap(getattr(IO.GridReader(), a[2])("second_" + a[4])) for a in ARTEFACTS}
             after = {a[0]: _snap(getattr(w.fg, a[3])()) for a in ARTEFACTS}
-            return before, loaded, loaded2, after, list(store.log)
+            return before, loaded, loaded2, after, (saved, saved2, dense_before, dense_saved, dense_saved2)
 
     for path in eng.explore(body):
         acc.begin(prover, path)
@@ -782,9 +793,20 @@ def run_persist(shape):
             continue
         before, loaded, loaded2, after, log = path.value
         claims = []
+        saved, saved2, dense_before, dense_saved, dense_saved2 = log
         for name, *_ in ARTEFACTS:
-            for tag, other in (("read_back", loaded), ("second_write_read_back", loaded2), ("grid_after_writing", after)):
-                k0, st0, v0 = before[name]
+            # what the writer put into the file is, as a matrix / array, what the grid's getter produces (the storage format is the writer's choice)
+            for tag, ds in (("file_holds_the_getters_values", dense_saved), ("second_file_holds_the_getters_values", dense_saved2)):
+                d0, d1 = dense_before[name], ds[name]
+                oks = d1 is not None and np.shape(d0) == np.shape(d1)
+                acc.structural(f"{tag}:{name}:written_with_the_right_shape", oks, detail=f"{np.shape(d0)} vs {None if d1 is None else np.shape(d1)}", cex=dict(cexinfo, artefact=name, model=c02._model(path) if not oks else None))
+                if oks:
+                    claims += [(f"{tag}:{name}:value#{i}", z(a) == z(b)) for i, (a, b) in enumerate(zip(np.asarray(d0, dtype=object).reshape(-1), np.asarray(d1, dtype=object).reshape(-1)))]
+            # the reader hands back exactly what is in the file: format, shape, pattern, stored order, values; the grid is untouched by writing
+            for tag, ref, other in (("read_back", saved, loaded), ("second_write_read_back", saved2, loaded2), ("grid_after_writing", before, after)):
+                if ref[name] is None:
+                    continue
+                k0, st0, v0 = ref[name]
                 k1, st1, v1 = other[name]
                 okst = (k0 == k1 and st0 == st1 and len(v0) == len(v1))
                 acc.structural(f"{tag}:{name}:format_shape_pattern_order", okst, detail=f"{st0} vs {st1}"[:400], cex=dict(cexinfo, artefact=name, model=c02._model(path) if not okst else None))
@@ -812,19 +834,25 @@ def replay_persist(cex):
                     getattr(w, sv)(p)
                     got = getattr(rd, ld)(p)
                     again = getattr(w.fg, get)()
-                    for tag, g in (("read back", got), ("grid after writing", again)):
-                        if rsp.issparse(want):
-                            if not rsp.issparse(g) or g.format != want.format or g.shape != want.shape:
-                                bad.append(f"{name} {tag}: format/shape {getattr(g, 'format', type(g))} {g.shape} vs {want.format} {want.shape} (grid {b},{o_},{t})")
+                    # what is in the file (read with the library directly), what the reader hands back, what the grid says afterwards
+                    raw = rsp.load_npz(p) if rsp.issparse(want) else np.load(p)
+                    dw = np.asarray(want.toarray() if rsp.issparse(want) else want, dtype=float)
+                    dr = np.asarray(raw.toarray() if rsp.issparse(raw) else raw, dtype=float)
+                    if dr.shape != dw.shape or not np.array_equal(dr, dw):
+                        bad.append(f"{name}: the file does not hold the values of the grid's getter (grid {b},{o_},{t})")
+                    for tag, ref, g in (("read back", raw, got), ("grid after writing", want, again)):
+                        if rsp.issparse(ref):
+                            if not rsp.issparse(g) or g.format != ref.format or g.shape != ref.shape:
+                                bad.append(f"{name} {tag}: format/shape {getattr(g, 'format', type(g))} {g.shape} vs {ref.format} {ref.shape} (grid {b},{o_},{t})")
                                 continue
-                            cw, cg = want.tocoo(), g.tocoo()
+                            cw, cg = ref.tocoo(), g.tocoo()
                             if not (np.array_equal(cw.row, cg.row) and np.array_equal(cw.col, cg.col)):
                                 bad.append(f"{name} {tag}: pattern / entry order differs (grid {b},{o_},{t})")
                             elif not (np.array_equal(cw.data, cg.data) and cw.data.dtype == cg.data.dtype):
                                 bad.append(f"{name} {tag}: values differ (grid {b},{o_},{t})")
                         else:
                             g = np.asarray(g)
-                            if g.shape != np.asarray(want).shape or not np.array_equal(g, want) or g.dtype != np.asarray(want).dtype:
+                            if g.shape != np.asarray(ref).shape or not np.array_equal(g, ref) or g.dtype != np.asarray(ref).dtype:
                                 bad.append(f"{name} {tag}: array differs (grid {b},{o_},{t})")
             except Exception as e:  # noqa: BLE001
                 bad.append(f"raised {type(e).__name__}: {e} (grid {b},{o_},{t})")
